@@ -394,6 +394,29 @@ def cross_process(ctx):
             ctx.violate(fam, f"xproc:{k}", f"{k}: two fresh processes (different hash seed and call order) return different results", {"call": k})
 
 
+def class_objects_job(n):
+    """LCClass objects and grouping arguments are not modified by id(), ==, str(), get_graph() or the linear_index codecs, however often they are called"""
+    import htstabilizer.lc_classes as lcc
+    LC = {2: lcc.LCClass2, 3: lcc.LCClass3, 4: lcc.LCClass4, 5: lcc.LCClass5, 6: lcc.LCClass6}[n]
+    out = []
+    for k in range(docs.CLASS_COUNT[n]):
+        obj = LC(k)
+        s0 = canon(obj)
+        g0 = canon(obj.get_graph())
+        ok = True
+        for _ in range(3):
+            ok = ok and obj.id() == k and obj == LC(k) and isinstance(str(obj), str) and canon(obj) == s0 and canon(obj.get_graph()) == g0
+        out.append((ok, f"classobj:{n}:{k}", f"LCClass{n}({k}): id()/==/str()/get_graph() change the object (or its answers) when repeated", {"n": n, "class_id": k}))
+    for nm, com in LC.combinatorics.items():
+        for i in range(com["count"]):
+            r = com["from_lin_idx1"](i)
+            s0 = canon(r)
+            vals = [com["to_lin_idx"](r) for _ in range(3)]
+            ok = canon(r) == s0 and vals == [i, i, i]
+            out.append((ok, f"linidx-args:{n}:{nm}:{i}", f"{nm}: from-codec modifies its grouping argument (index {i}, answers {vals})", {"n": n, "type": nm, "index": i}))
+    return out
+
+
 def run(ctx: core.Ctx):
     import htstabilizer.circuit_lookup as cl
     import htstabilizer.mub_circuits as mc
@@ -410,6 +433,14 @@ def run(ctx: core.Ctx):
             ctx.record(fam, PROVED if ok else REFUTED, rp if fam.total < 2 else None)
             if not ok:
                 ctx.violate(fam, key, what, rp)
+    famc = ctx.family("C13.args_unmodified.class_objects", GROUND, "native", "LCClass objects / grouping arguments unchanged by repeated id(), ==, str(), get_graph(), codec calls")
+    famc.exhaustive = True
+    famc.domain = "all 878 class ids; every index of every grouping codec"
+    for res in core.pmap(class_objects_job, [2, 3, 4, 5, 6], chunks=1):
+        for ok, key, what, rp in res:
+            ctx.record(famc, PROVED if ok else REFUTED, rp if famc.total < 2 else None)
+            if not ok:
+                ctx.violate(famc, key, what, rp)
     cross_process(ctx)
     ctx.extra["ground_time_s"] = round(time.time() - t, 2)
     ctx.trust("heap walker (containers, __dict__, __slots__, ndarray bases; a QuantumCircuit is one opaque mutable object plus its metadata)",
